@@ -784,6 +784,10 @@ class Interp(object):
 
     # ---------------------------------------------------------------- attribute protocol
     def getattr_(self, obj, attr, node=None):
+        if attr == "__version__" and isinstance(obj, RepoModule):
+            v = self.world.override(obj._ctx.modname + ".__version__")
+            if v is not _MISSING:
+                return v
         if attr == "__dict__" and isinstance(obj, Instance):
             return obj._attrs           # the instance dictionary itself (options classes store through self.__dict__[name] = value)
         if attr.startswith("__") and attr not in ("__name__", "__class__") and not (attr == "__init__" and isinstance(obj, (Instance, ClassRef, SuperProxy))) \
@@ -943,6 +947,10 @@ class Interp(object):
             return f(*args, **kwargs)
         if f is super:
             raise Unsupported("super")
+        if isinstance(f, Instance):
+            m = self._dunder(f, "__call__")
+            if m is not None:
+                return m(*args, **kwargs)           # an instance of a repository class that defines __call__ (wn.nodes(Tank))
         if not callable(f):
             raise ProgramError(TypeError("%r is not callable" % (f,)), getattr(node, "lineno", None))
         if f is str and len(args) == 1 and not kwargs and isinstance(args[0], Instance):
@@ -1162,6 +1170,8 @@ class Interp(object):
         if isinstance(v, Instance):
             m, _ = v._cls.find("__bool__")
             m2, _ = v._cls.find("__len__")
+            if m is not None and self._dunder(v, "__bool__") is not None:
+                return bool(self._dunder(v, "__bool__")())        # the class's own __bool__
             if m is None and m2 is not None and self._dunder(v, "__len__") is not None:
                 return self._dunder(v, "__len__")() != 0          # Python: no __bool__ -> len(x) != 0
             if m is not None or m2 is not None:
@@ -1282,9 +1292,19 @@ class Interp(object):
             if isinstance(v, AutoMock):
                 raise Unsupported("comparison with the unmodelled value %s at line %s" % (v._name, getattr(node, "lineno", "?")))
         if isinstance(op, (ast.Eq, ast.NotEq)):
-            for v in (a, b):
-                if isinstance(v, Instance) and v._cls.find("__eq__")[0] is not None:
-                    raise Unsupported("== on an instance of %s (defines __eq__)" % v._cls.name)
+            for x_, y_ in ((a, b), (b, a)):
+                if isinstance(x_, Instance) and x_._cls.find("__eq__")[0] is not None:
+                    if isinstance(op, ast.NotEq) and self._dunder(x_, "__ne__") is not None:
+                        r_ = self._dunder(x_, "__ne__")(y_)
+                        if r_ is not NotImplemented:
+                            return r_
+                    m_ = self._dunder(x_, "__eq__")
+                    if m_ is None:
+                        raise Unsupported("== on an instance of %s (defines __eq__ in a way that is not modelled)" % x_._cls.name)
+                    r_ = m_(y_)                       # the class's own __eq__
+                    if r_ is NotImplemented:
+                        continue
+                    return r_ if isinstance(op, ast.Eq) else (not self.truth(r_, node))
             r = a == b
             return r if isinstance(op, ast.Eq) else (not r if isinstance(r, bool) else a != b)
         f = {ast.Lt: operator.lt, ast.LtE: operator.le, ast.Gt: operator.gt, ast.GtE: operator.ge}[type(op)]
